@@ -81,7 +81,7 @@ def context_of(v, job):
         ctx.append("genwrap")
     evs = v.get("evs", [])
     pan = [i for i, e in enumerate(evs) if e.get("e") == "panic" and e.get("user")]
-    if pan and v["prop"] == "C18":
+    if pan and "C18" in v["prop"]:
         i = pan[-1]
         t = evs[i]["t"]
         invs = [e for e in evs[:i] if e.get("e") == "inv" and e.get("t") == t]
